@@ -5,6 +5,7 @@ with resolved callees, named field projections and variant names.  Nothing in th
 package executes h2 or matches source text.
 """
 import json
+import os
 import re
 import collections
 
@@ -214,6 +215,99 @@ class Fn:
         self._dom = None
         self.facts = None
         self._captures = None
+        try:
+            self._thread_bool_constants()
+        except Exception:  # the transformation is an aid to precision only
+            pass
+
+    def _thread_bool_constants(self):
+        """Jump threading for boolean temporaries.  `let c = a && b; if c {..}` (and `matches!`, `||`, a condition kept in a
+        named local, a boolean helper inlined by Facts._inline_new_helpers) lowers to: arm 1 stores a constant into `c`,
+        arm 2 stores a computed value, both jump -- possibly through a block that only copies the value on -- to a block J
+        that switches on `c`.  The constant arm's outcome at J is known, so its jump is redirected to a copy of the
+        statements on the way followed by the matching successor.  Afterwards J is entered only from the computing arm,
+        so the tests that led there dominate / control what follows, as if the condition had been written in the `if`."""
+        blocks = self.blocks
+        locals_ = self.locals
+        n0 = len(blocks)
+        budget = [64]
+        preds = {}
+        for pi in range(n0):
+            P = blocks[pi]
+            if not P['cu'] and P['t']['k'] == 'goto':
+                preds.setdefault(P['t']['t'], []).append(pi)
+
+        def find(P, cur):
+            """(constant stored into `cur` by P, or None; the local holding the value at P's entry, or None when P computes it)"""
+            for st in reversed(P['s']):
+                pl, rv = st[0], st[1]
+                if pl[0] == cur:
+                    if len(pl) == 1 and rv[0] == 'use' and rv[1][0] == 'k' and rv[1][2] == 'bool' and rv[1][3] in (0, 1):
+                        return rv[1][3], None
+                    src = op_local(rv[1]) if (len(pl) == 1 and rv[0] == 'use') else None
+                    if src is None:
+                        return None, None
+                    cur = src
+            return None, cur
+        for j in range(n0):
+            J = blocks[j]
+            t = J['t']
+            if J['cu'] or t['k'] != 'sw' or t.get('ty') != 'bool':
+                continue
+            p = op_local(t['o'])
+            if p is None:
+                continue
+            clean = True
+            chain = set()
+            for st in reversed(J['s']):
+                pl, rv = st[0], st[1]
+                if len(pl) == 1 and pl[0] == p:
+                    src = op_local(rv[1]) if rv[0] == 'use' else None
+                    if src is None:
+                        clean = False
+                        break
+                    chain.add(p)  # a temporary that only carries the value into the switch
+                    p = src
+            if not clean or locals_[p][0] != 'bool':
+                continue
+            jstmts = [list(x) for x in J['s'] if not (len(x[0]) == 1 and x[0][0] in chain)]
+
+            def redirect(P, val, carried):
+                tg = [b for v, b in t['ts'] if (v != 0) == (val != 0)]
+                target = tg[0] if tg else t['else']
+                blocks.append({'cu': False, 's': carried + [list(x) for x in jstmts], 't': {'k': 'goto', 't': target}})
+                P['t'] = dict(P['t'], t=len(blocks) - 1)
+                budget[0] -= 1
+            for pi in list(preds.get(j, ())):
+                P = blocks[pi]
+                if pi == j or P['t'].get('t') != j or budget[0] <= 0:
+                    continue
+                val, cur = find(P, p)
+                if val is not None:
+                    redirect(P, val, [])
+                elif cur is not None and all(len(st[0]) == 1 and st[1][0] == 'use' for st in P['s']):
+                    # P only copies values on: look one block further back
+                    for qi in list(preds.get(pi, ())):
+                        Q = blocks[qi]
+                        if qi in (pi, j) or Q['t'].get('t') != pi or budget[0] <= 0:
+                            continue
+                        val2, _ = find(Q, cur)
+                        if val2 is not None:
+                            # the copies that only carry the tested value are not repeated (they would become second
+                            # definitions of single-definition temporaries)
+                            carried_locals = set()
+                            c2 = p
+                            for st in reversed(P['s']):
+                                if len(st[0]) == 1 and st[0][0] == c2 and st[1][0] == 'use' and op_local(st[1][1]) is not None:
+                                    carried_locals.add(c2)
+                                    c2 = op_local(st[1][1])
+                            redirect(Q, val2, [list(x) for x in P['s'] if not (len(x[0]) == 1 and x[0][0] in carried_locals)])
+        self._succ = None
+        self._pred = None
+        self._defs = None
+        self._live = None
+        self._dom = None
+        self._expr_cache = {}
 
     def captures(self):
         """for a closure: expressions (in the parent's frame) of the captured operands, by index"""
@@ -313,8 +407,14 @@ class Fn:
         return out
 
     def calls_to(self, *names):
+        """call sites of the named functions; a call of a *new helper* (a function that did not exist when the rules were
+        reviewed, see Facts.new_fns) from which a named function is reached through new helpers only counts as a site
+        too -- extracting a few lines into a private function does not hide the call from a rule"""
         names = set(names)
-        return self.calls(lambda t: t['fn'] in names)
+        new = self.facts.new_fns if self.facts is not None else ()
+        if not new:
+            return self.calls(lambda t: t['fn'] in names)
+        return self.calls(lambda t: t['fn'] in names or (t['fn'] in new and self.facts.helper_reaches(t['fn'], names)))
 
     def stmts(self):
         """yield (bi, si, place, rvalue, line) for all assignments in non-cleanup blocks"""
@@ -882,6 +982,156 @@ class Facts:
             m = re.match(r'^<(.+) as std::ops::Drop>::drop$', name)
             if m:
                 self.drop_impls[m.group(1)] = name
+        # functions that did not exist in the reviewed tree: transparent helpers for call-site rules
+        self.new_fns = set()
+        try:
+            with open(os.path.join(os.path.dirname(os.path.abspath(__file__)), 'rules', 'known_fns.json')) as fh:
+                known = set(json.load(fh))
+            self.new_fns = set(n for n in self.fns if n not in known and '{closure' not in n and '::tests::' not in n and not n.startswith('<'))
+        except Exception:
+            pass
+        self._helper_cache = {}
+        try:
+            self._inline_new_helpers()
+        except Exception:  # an aid to precision only; without it the look-through in calls_to / expand_atoms remains
+            pass
+
+    def _inline_new_helpers(self, rounds=3):
+        """MIR-level inlining of *new helpers* (functions absent from the reviewed tree) into their callers, so that a few
+        lines extracted into a private function are analysed where they are used -- dominance, control dependence,
+        who-may-call and amount rules see the same program as before the extraction.  Leaf helpers first; a helper all of
+        whose call sites were inlined disappears from the function table."""
+        import copy
+        for _ in range(rounds):
+            leaf = set()
+            for h in self.new_fns:
+                g = self.fns.get(h)
+                if g is None:
+                    continue
+                callees = set(b['t']['fn'] for b in g.blocks if b['t']['k'] == 'call')
+                if not (callees & self.new_fns) and len(g.blocks) <= 80:
+                    leaf.add(h)
+            if not leaf:
+                break
+            left = set()
+            for name, f in list(self.fns.items()):
+                if name in leaf:
+                    continue
+                bi = 0
+                n_inlined = 0
+                while bi < len(f.blocks):
+                    b = f.blocks[bi]
+                    t = b['t']
+                    if t['k'] == 'call' and t['fn'] in leaf and not b['cu']:
+                        if t['t'] is None or t['t'] < 0 or len(t['d']) == 0 or n_inlined >= 12:
+                            left.add(t['fn'])
+                        else:
+                            self._inline_call(f, bi, self.fns[t['fn']], copy)
+                            n_inlined += 1
+                    bi += 1
+            for h in leaf - left:
+                self.fns.pop(h, None)
+                self.new_fns.discard(h)
+            self.new_fns -= left & leaf  # could not be inlined everywhere: stays a (transparent) function
+            if left & leaf:
+                self.new_fns |= set()  # keep semantics explicit
+
+    @staticmethod
+    def _inline_call(f, bi, g, copy):
+        off = len(f.locals)
+        boff = len(f.blocks)
+        t = f.blocks[bi]['t']
+        ln = t.get('ln')
+        f.locals.extend(copy.deepcopy(g.locals))
+
+        def rplace(p):
+            return [p[0] + off] + [(['i', x[1] + off] if isinstance(x, list) and x and x[0] == 'i' else x) for x in p[1:]]
+
+        def roper(o):
+            return [o[0], rplace(o[1])] if o and o[0] in ('c', 'm') else o
+
+        def rrv(rv):
+            k = rv[0]
+            if k == 'use':
+                return ['use', roper(rv[1])]
+            if k == 'ref':
+                return ['ref', rv[1], rplace(rv[2])]
+            if k == 'addr':
+                return ['addr', rplace(rv[1])]
+            if k == 'bin':
+                return ['bin', rv[1], roper(rv[2]), roper(rv[3])]
+            if k == 'un':
+                return ['un', rv[1], roper(rv[2])]
+            if k == 'discr':
+                return ['discr', rplace(rv[1]), rv[2]]
+            if k == 'cast':
+                return ['cast', rv[1], roper(rv[2])] + list(rv[3:])
+            if k == 'aggr':
+                return ['aggr', rv[1], rv[2], [roper(o) for o in rv[3]]]
+            return copy.deepcopy(rv)
+
+        def rb(x):
+            return x + boff if isinstance(x, int) and x >= 0 else x
+        for gb in g.blocks:
+            nb = {'cu': gb['cu'], 's': [[rplace(st[0]), rrv(st[1])] + list(st[2:]) for st in gb['s']]}
+            gt = gb['t']
+            k = gt['k']
+            nt = copy.deepcopy(gt)
+            if k == 'call':
+                nt['a'] = [roper(o) for o in gt['a']]
+                nt['d'] = rplace(gt['d']) if gt['d'] else gt['d']
+                nt['t'] = rb(gt['t'])
+                if 'u' in gt:
+                    nt['u'] = rb(gt['u'])
+            elif k == 'sw':
+                nt['o'] = roper(gt['o'])
+                nt['ts'] = [[v, rb(x)] for v, x in gt['ts']]
+                nt['else'] = rb(gt['else'])
+            elif k == 'drop':
+                nt['p'] = rplace(gt['p']) if isinstance(gt.get('p'), list) else gt.get('p')
+                nt['t'] = rb(gt['t'])
+                if 'u' in gt:
+                    nt['u'] = rb(gt['u'])
+            elif k == 'goto':
+                nt['t'] = rb(gt['t'])
+            elif k == 'assert':
+                nt['cond'] = roper(gt['cond'])
+                nt['t'] = rb(gt['t'])
+            elif k == 'other':
+                if isinstance(gt.get('d'), list) and gt['d']:
+                    nt['d'] = rplace(gt['d'])
+                nt['succ'] = [rb(x) for x in gt['succ']]
+            elif k == 'ret':
+                nb['s'].append([list(t['d']), ['use', ['m', [off]]], gt.get('ln', ln)])
+                nt = {'k': 'goto', 't': t['t']}
+            nb['t'] = nt
+            f.blocks.append(nb)
+        for k2, a in enumerate(t['a']):
+            f.blocks[bi]['s'].append([[off + 1 + k2], ['use', a], ln])
+        f.blocks[bi]['t'] = {'k': 'goto', 't': boff}
+        try:
+            f._thread_bool_constants()
+        except Exception:
+            pass
+
+    def helper_reaches(self, helper, names, depth=3):
+        """a named function is called by `helper` directly or through further new helpers"""
+        key = (helper, tuple(sorted(names)))
+        if key in self._helper_cache:
+            return self._helper_cache[key]
+        self._helper_cache[key] = False
+        f = self.fns.get(helper)
+        res = False
+        if f is not None and depth > 0:
+            for b in f.blocks:
+                t = b['t']
+                if b['cu'] or t['k'] != 'call':
+                    continue
+                if t['fn'] in names or (t['fn'] in self.new_fns and t['fn'] != helper and self.helper_reaches(t['fn'], names, depth - 1)):
+                    res = True
+                    break
+        self._helper_cache[key] = res
+        return res
 
     def norm(self, path):
         n = norm(path)
@@ -1128,19 +1378,47 @@ def resolve_switch(facts, fn, bi):
     return Switch('int', e, lab, bi)
 
 
+_NEG_OP = {'Gt': 'Le', 'Le': 'Gt', 'Lt': 'Ge', 'Ge': 'Lt', 'Eq': 'Ne', 'Ne': 'Eq'}
+_SWAP_OP = {'Gt': 'Lt', 'Lt': 'Gt', 'Ge': 'Le', 'Le': 'Ge', 'Eq': 'Eq', 'Ne': 'Ne'}
+
+
+def presentations(sw):
+    """the equivalent ways of writing a comparison switch: as written, negated (`a <= b` with the edges exchanged for
+    `a > b`), with the operands exchanged, and both.  A rule that states its test as `x > limit` on the true edge thereby
+    also recognises `if x <= limit {..} else {..}`, `limit < x`, and PartialOrd method calls."""
+    yield sw
+    c = cmp_of(sw)
+    if c is None or any(l is None for l in sw.labels.values()):
+        return
+    op, a, b = c
+    inv = {s: (not l) for s, l in sw.labels.items()}
+    yield Switch('cmp', ('bin', _NEG_OP[op], a, b), inv, sw.bi)
+    yield Switch('cmp', ('bin', _SWAP_OP[op], b, a), dict(sw.labels), sw.bi)
+    yield Switch('cmp', ('bin', _NEG_OP[_SWAP_OP[op]], b, a), inv, sw.bi)
+
+
 def edges_where(facts, fn, subject_pred, label_pred):
     """all CFG edges (from, to) out of switches whose subject satisfies subject_pred and
-    whose label on that edge satisfies label_pred"""
+    whose label on that edge satisfies label_pred.  A comparison is tried as written first and then in its
+    equivalent presentations (see `presentations`); the first one the subject predicate accepts is used."""
     out = []
     for bi, b in enumerate(fn.blocks):
         if b['cu'] or b['t']['k'] != 'sw':
             continue
-        sw = resolve_switch(facts, fn, bi)
-        if sw is None or not subject_pred(sw):
+        sw0 = resolve_switch(facts, fn, bi)
+        if sw0 is None:
             continue
-        for s, l in sw.labels.items():
-            if l is not None and label_pred(l):
-                out.append((bi, s))
+        for sw in presentations(sw0):
+            try:
+                hit = subject_pred(sw)
+            except (IndexError, TypeError):
+                hit = False
+            if not hit:
+                continue
+            for s, l in sw.labels.items():
+                if l is not None and label_pred(l):
+                    out.append((bi, s))
+            break
     return out
 
 
@@ -1374,6 +1652,27 @@ def guard_edges(facts, fn, callees, accept):
     return edges_where(facts, fn, subj, accept)
 
 
+def switch_root_local(fn, bi):
+    """the local a switch really tests: its operand followed back through single-definition copies
+    (`_8 = copy _3; switchInt(move _8)` -> 3); None when the operand is not a bare local"""
+    t = fn.term(bi)
+    if t['k'] != 'sw':
+        return None
+    l = op_local(t['o'])
+    hops = 0
+    while l is not None and hops < 6:
+        d = fn.single_def(l)
+        if d is None or d[0] != 's':
+            break
+        rv = d[3]
+        src = op_local(rv[1]) if rv[0] == 'use' else None
+        if src is None:
+            break
+        l = src
+        hops += 1
+    return l
+
+
 def all_switches(facts, fn):
     out = {}
     for bi, b in enumerate(fn.blocks):
@@ -1590,6 +1889,15 @@ _REGION_NAME = {frozenset(['eq']): 'eq', frozenset(['lt', 'gt']): 'ne', frozense
                 frozenset(['lt', 'eq']): 'le', frozenset(['gt', 'eq']): 'ge'}
 
 
+_UNSIGNED = ('u8', 'u16', 'u32', 'u64', 'u128', 'usize')
+
+
+def is_unsigned_zero(e):
+    """the constant 0 of an unsigned integer type (then `x > 0` and `x != 0`, `x <= 0` and `x == 0` are the same test)"""
+    x = strip(e)
+    return x[0] == 'const' and x[1] == 0 and len(x) > 3 and x[3] in _UNSIGNED
+
+
 def edge_polarity(sw, succs, fn=None):
     """the outcome of the test of `sw` on the edges `succs`, in a form that does not depend on how the test is written:
     'T'/'F' for a boolean, eq/ne/lt/le/gt/ge for a comparison (operands ordered canonically, so `a < b` and `b > a`
@@ -1605,6 +1913,15 @@ def edge_polarity(sw, succs, fn=None):
         if c is None:
             return 'T' if v else 'F'
         reg = set(_ORD[c[0]]) if v else set(_ORD_ALL - _ORD[c[0]])
+        # unsigned x against 0: x < 0 cannot happen, so `x > 0` is `x != 0` and `x <= 0` is `x == 0`
+        if is_unsigned_zero(c[2]):
+            reg.discard('lt')
+            if reg == {'gt'}:
+                reg = {'lt', 'gt'}
+        elif is_unsigned_zero(c[1]):
+            reg.discard('gt')
+            if reg == {'lt'}:
+                reg = {'lt', 'gt'}
         a = '+'.join(sorted(predicate_atoms(sw, fn, True, only=c[1])))
         b = '+'.join(sorted(predicate_atoms(sw, fn, True, only=c[2])))
         if a > b:
@@ -1648,7 +1965,7 @@ def expand_atoms(facts, atoms, keep, depth=2):
             out.add(a)
             continue
         short_name = a[5:]
-        cands = [f for n, f in facts.fns.items() if n.rsplit('::', 1)[-1] == short_name and f.ret == 'bool' and 'closure' not in n and len(f.blocks) <= 40]
+        cands = [f for n, f in facts.fns.items() if n.rsplit('::', 1)[-1] == short_name and (f.ret == 'bool' or n in facts.new_fns) and 'closure' not in n and len(f.blocks) <= 40]
         if len(cands) != 1:
             out.add(a)
             continue
@@ -1772,6 +2089,13 @@ def control_terms(facts, fn, site, polar=True):
         if t.get('exp') and any(k in t['exp'] for k in ('trace', 'debug', 'event', 'span', 'warn', 'error!', 'info!')):
             continue
         at = predicate_atoms(sw, fn, rich=True)
+        # `match x { 8 => .., _ => .. }` is the test `x == 8`: present a one-value integer switch as that comparison
+        one_value = None
+        if sw.kind == 'int':
+            vals = [l for l in sw.labels.values() if l != 'else']
+            if len(vals) == 1 and isinstance(vals[0], int) and 'else' in sw.labels.values():
+                one_value = vals[0]
+                at = set(at) | {'const:%d' % one_value}
         if at:
             term = '&'.join(sorted(at))
             if polar:
@@ -1779,13 +2103,18 @@ def control_terms(facts, fn, site, polar=True):
                 pol = ''
                 # strong outcome: the site can only be reached after this outcome; weak ('~'): the site can be reached after
                 # either outcome (a join point, a disjunct) but is inevitable only after this one
+                def outcome(edges):
+                    if one_value is not None:
+                        labs = set(sw.labels.get(s) for s in edges)
+                        return 'eq' if labs == {one_value} else ('ne' if labs == {'else'} else '')
+                    return edge_polarity(sw, edges, fn)
                 reach = [s for s in ss if site in fn.reachable([s], cut_blocks=[a])]
                 if reach and len(reach) < len(ss):
-                    pol = edge_polarity(sw, reach, fn)
+                    pol = outcome(reach)
                 else:
                     inev = [s for s in ss if site in pd[s]]
                     if inev and len(inev) < len(ss):
-                        pol = edge_polarity(sw, inev, fn)
+                        pol = outcome(inev)
                         if pol:
                             pol = '~' + pol
                 if pol:
